@@ -3,6 +3,8 @@ Helper lemmas for C15 (and C11): fill counts of the alignments, the width of a p
 `StringFormatOptions::parse`. Core Lean only.
 -/
 import KotoVerif.Model.FmtSpec
+import KotoVerif.Lemmas.C15Ops
+import KotoVerif.Lemmas.C15Enc
 
 namespace KotoVerif.FmtSpec
 open KotoVerif.Utf8
@@ -101,5 +103,140 @@ def gridOpts : List Opts :=
   ([none, some .debug, some .hexLower, some .expUpper] : List (Option Rep)).filterMap fun r =>
     if f.isSome ∧ a = .default ∧ ¬(f = some [48] ∧ w.isSome) then none
     else some { align := a, minWidth := w, precision := p, fill := f, rep := r }
+
+/-! ### the formatted text is well-formed UTF-8 -/
+
+theorem ascii_all_valid : ∀ {s : Bytes}, (∀ b ∈ s, b < 0x80) → validUtf8 s = true
+  | [], _ => valid_nil
+  | c :: r, h => by
+    have hc : validUtf8 [c] = true := by
+      rw [validUtf8_iff]; simp [u8run, step_ascii (h c (by simp))]
+    have := valid_append hc (ascii_all_valid (s := r) (fun b hb => h b (by simp [hb])))
+    simpa using this
+
+theorem digitChar_ascii {d : Nat} (upper : Bool) (h : d < 36) : digitChar d upper < 0x80 := by
+  simp only [digitChar]
+  split
+  · omega
+  · split <;> omega
+
+theorem natDigits_ascii {base : Nat} (upper : Bool) (hb : 2 ≤ base ∧ base ≤ 36) :
+    ∀ (fuel n : Nat), ∀ b ∈ natDigits base upper fuel n, b < 0x80
+  | 0, _, b, h => by simp [natDigits] at h
+  | fuel + 1, n, b, h => by
+    simp only [natDigits] at h
+    split at h
+    · simp only [List.mem_singleton] at h; subst h; exact digitChar_ascii upper (by omega)
+    · rcases List.mem_append.mp h with h | h
+      · exact natDigits_ascii upper hb fuel _ b h
+      · simp only [List.mem_singleton] at h; subst h
+        exact digitChar_ascii upper (by have := Nat.mod_lt n (by omega : 0 < base); omega)
+
+theorem showDec_ascii (n : Nat) : ∀ b ∈ showDec n, b < 0x80 := natDigits_ascii false (by omega) _ _
+
+theorem showInt_ascii (n : Int) : ∀ b ∈ showInt n, b < 0x80 := by
+  intro b hb
+  simp only [showInt] at hb
+  split at hb
+  · rcases List.mem_cons.mp hb with rfl | hb
+    · omega
+    · exact showDec_ascii _ b hb
+  · exact showDec_ascii _ b hb
+
+theorem showRadix_ascii {base : Nat} (upper : Bool) (hb : 2 ≤ base ∧ base ≤ 36) (n : Int) :
+    ∀ b ∈ showRadix base upper n, b < 0x80 := natDigits_ascii upper hb _ _
+
+theorem showExp_ascii (upper : Bool) (n : Int) : ∀ b ∈ showExp upper n, b < 0x80 := by
+  intro b hb
+  simp only [showExp] at hb
+  cases hsz : stripZeros 20 n.natAbs 0 with
+  | mk m tz =>
+    rw [hsz] at hb
+    simp only [List.mem_append] at hb
+    have hds := showDec_ascii m
+    rcases hb with ((hb | hb) | hb) | hb
+    · split at hb
+      · simp only [List.mem_singleton] at hb; omega
+      · cases hb
+    · cases hd : showDec m with
+      | nil => rw [hd] at hb; cases hb
+      | cons d r =>
+        rw [hd] at hb hds
+        cases r with
+        | nil =>
+          simp only [List.mem_singleton] at hb; subst hb
+          exact hds b (by simp)
+        | cons d2 r2 =>
+          simp only [List.mem_cons] at hb
+          rcases hb with rfl | rfl | rfl | hb
+          · exact hds _ (by simp)
+          · omega
+          · exact hds _ (by simp)
+          · exact hds b (by simp [hb])
+    · simp only [List.mem_singleton] at hb
+      split at hb <;> omega
+    · exact showDec_ascii _ b hb
+
+open KotoVerif.Str in
+/-- the rendered value (precision and representation applied) is well-formed UTF-8 -/
+theorem render_valid (g : Bytes → Nat) (hp : Progress g) (hb : CutsAtBoundaries g) (v : FVal) (o : Option Opts)
+    (hv : ∀ s, v = .str s → validUtf8 s = true) : validUtf8 (render g v o) = true := by
+  have trunc : ∀ (text : Bytes) (p : Nat), validUtf8 text = true →
+      validUtf8 ((graphemes g text).take p).flatten = true := by
+    intro text p ht
+    apply valid_flatten
+    intro x hx
+    exact segs_valid hp hb text.length text ht x (List.mem_of_mem_take hx)
+  have fin : ∀ (text : Bytes), validUtf8 text = true →
+      validUtf8 (match o.bind (·.precision) with
+        | some p => ((graphemes g text).take p).flatten
+        | none => text) = true := by
+    intro text ht
+    split
+    · exact trunc text _ ht
+    · exact ht
+  cases v with
+  | int n =>
+    simp only [render]
+    repeat' split
+    all_goals first
+      | exact ascii_all_valid (showInt_ascii _)
+      | exact ascii_all_valid (showRadix_ascii _ (by omega) _)
+      | exact ascii_all_valid (showExp_ascii _ _)
+      | (apply valid_append (ascii_all_valid (showInt_ascii _))
+         apply ascii_all_valid
+         intro b hb
+         first
+           | exact absurd hb List.not_mem_nil
+           | (rcases List.mem_cons.mp hb with rfl | hb
+              · omega
+              · have := (List.mem_replicate.mp hb).2; omega))
+  | str s =>
+    have hs := hv s rfl
+    simp only [render]
+    apply fin
+    split
+    · simp only [debug]
+      exact valid_append (valid_append (by decide) hs) (by decide)
+    · exact hs
+  | bool b =>
+    simp only [render]
+    apply fin
+    cases b <;> (split <;> decide)
+  | null =>
+    simp only [render]
+    apply fin
+    split <;> decide
+
+open KotoVerif.Str in
+/-- **what `run_string_push` appends is well-formed UTF-8** -/
+theorem applyFmt_valid (g : Bytes → Nat) (hp : Progress g) (hb : CutsAtBoundaries g) (v : FVal) (o : Opts)
+    (exact : Bool) (hv : ∀ s, v = .str s → validUtf8 s = true) (hf : validUtf8 (o.fill.getD [32]) = true) :
+    validUtf8 (applyFmt g v (some o) exact) = true := by
+  have hr := render_valid g hp hb v (some o) hv
+  simp only [applyFmt, pad]
+  split
+  · exact valid_append (valid_append (valid_replicate _ hf) hr) (valid_replicate _ hf)
+  · exact hr
 
 end KotoVerif.FmtSpec
